@@ -255,6 +255,14 @@ class Sym:
         # fork here so that the harness sees a concrete python bool
         return True if v else False
 
+    def split_on(self, name, cond):
+        """fork on a (symbolic) condition; a pin on `name` keeps only one side (used to cut a
+        search tree into independent sub-trees along a predicate over real inputs)"""
+        b = True if cond else False
+        if self.symbolic and name in self.pins and bool(self.pins[name]) != b:
+            raise IgnoreAttempt("split")
+        return b
+
     # -- control ----------------------------------------------------------------
     def assume(self, cond):
         if not cond:
